@@ -13,4 +13,8 @@ var props = []prop{
 	{ID: "C11", Level: "exploration", Rule: "fuzz", Parts: []part{{Name: "fuzz", Pkg: "rfc", Test: "TestFuzzC11", Race: true, Batches: [2]int{8, 16}}}},
 	{ID: "C16", Level: "exploration", Rule: "fuzz", RaceIsViolation: true, Parts: []part{{Name: "fuzz", Pkg: "rfc", Test: "TestFuzzC16", Race: true, Batches: [2]int{8, 16}, DeathIsViolation: true}}},
 	{ID: "C18", Level: "exploration", Rule: "fuzz", Parts: []part{{Name: "fuzz", Pkg: "rfc", Test: "TestFuzzC18", Race: true, Batches: [2]int{8, 16}}}},
+	{ID: "C03", Level: "exploration", Rule: "fuzz", Parts: []part{{Name: "fuzz", Pkg: "rfc", Test: "TestFuzzC03", Batches: [2]int{8, 16}}}},
+	{ID: "C04", Level: "exploration", Rule: "fuzz", Parts: []part{{Name: "fuzz", Pkg: "rfc", Test: "TestFuzzC04", Batches: [2]int{8, 16}}}},
+	{ID: "C06", Level: "exploration", Rule: "fuzz", Parts: []part{{Name: "fuzz", Pkg: "rfc", Test: "TestFuzzC06", Batches: [2]int{8, 16}}}},
+	{ID: "C07", Level: "exploration", Rule: "fuzz", Parts: []part{{Name: "fuzz", Pkg: "rfc", Test: "TestFuzzC07", Batches: [2]int{8, 16}}}},
 }
